@@ -379,6 +379,13 @@ class Gen:
         new = _Scope(sc)
         v = self.fresh('ys')
         text, n = self.listexpr(sc, 2)
+        locals_l = [x for x in sc.of('L') if x.startswith('ys')]
+        if locals_l and self.rng.random() < self.p.get('list_redefine_prob', 0):
+            # rebind an existing local list (sizes then meet at branch merges and loop headers)
+            v = self.rng.choice(locals_l)
+            old = self.list_len.get(v)
+            n = min(old, n) if (old is not None and n is not None) else None
+            self.features.add('list_redefined')
         self.emit(ind, f'{v} = {text}')
         new.vars[v] = 'L'
         self.list_len[v] = n
